@@ -11,7 +11,7 @@ ToInt(s) == CHOOSE n \in 0..64 : ToString(n) = s
 MaxN1   == ToInt(IOEnv.C18_MAXN1)      \* largest axis length in 1-d
 MaxN2   == ToInt(IOEnv.C18_MAXN2)      \* largest axis length in 2-d (0: no 2-d cases)
 Kind    == IOEnv.C18_KIND              \* "dft" | "ft"
-X0Tags  == IF IOEnv.C18_X0 = "all" THEN {"sym", "pos", "int", "third"} ELSE {"sym", "pos"}
+X0Tags  == IF IOEnv.C18_X0 = "all" THEN {"sym", "pos", "third"} ELSE {"sym", "pos"}
 
 Shapes == {<<n>> : n \in 1..MaxN1} \cup {<<n1, n2>> : n1 \in 1..MaxN2, n2 \in 1..MaxN2}
 AxesOf(nd) == IF nd = 1 THEN {<<0>>} ELSE {<<0>>, <<1>>, <<0, 1>>, <<1, 0>>}
